@@ -594,7 +594,7 @@ func (e *Env) binary(x *EBinary) TV {
 		if mt, ok := m.Ty.Underlying().(*types.Map); ok {
 			md, _, _ := mapComps(c, mt)
 			comp := c.comp(e.st, md, "(Array Ref (Array "+c.sortOf(mt.Key())+" Bool))")
-			return TV{T: sel(comp, m.T, k.T), Ty: B}
+			return TV{T: "(and (not (= " + m.T + " null)) " + sel(comp, m.T, k.T) + ")", Ty: B}
 		}
 		tfail("'in' needs a map or set on the right: %s", x.Y.String())
 	}
@@ -715,7 +715,8 @@ func (e *Env) call(x *ECall) TV {
 		case *types.Map:
 			_, _, ml := mapComps(c, u)
 			comp := c.comp(e.st, ml, "(Array Ref Int)")
-			return TV{T: sel(comp, v.T), Ty: types.Typ[types.Int]}
+			c.lenAxioms(e.st, u)
+			return TV{T: "(ite (= " + v.T + " null) 0 " + sel(comp, v.T) + ")", Ty: types.Typ[types.Int]}
 		case *types.Array:
 			return TV{T: fmt.Sprint(u.Len()), Ty: types.Typ[types.Int]}
 		}
